@@ -13,12 +13,13 @@ UNARY = ["negative", "positive", "absolute", "square", "sum", "prod", "cumsum", 
          "gradient", "hessian", "derivative0", "str", "repr", "todict", "astype", "clean", "nonzero", "any", "all", "iter",
          "exponents_inplace", "coefficients_inplace", "set_dimensions", "tonumpy_or_raise", "diff", "ediff1d", "round",
          "reshape", "repeat", "tile", "expand_dims", "atleast_2d", "diag_or_raise", "pickle_roundtrip", "call_numeric",
-         "call_bad_kw", "getitem"]
+         "call_bad_kw", "getitem", "str_suppress", "repr_suppress", "array_str_suppress", "array_repr_suppress", "to_string_suppress"]
 BINARY = ["add", "subtract", "multiply", "poly_divmod", "truediv_op", "mod_op", "greater", "less_equal", "equal", "not_equal",
           "maximum", "minimum", "where", "concatenate", "stack", "outer", "inner", "matmul_or_raise", "isclose", "allclose",
           "align_polynomials", "align_exponents", "align_indeterminants", "align_shape", "call_poly", "logical_and",
           "true_divide_numeric_or_raise", "floor_divide_or_raise", "remainder_or_raise", "power_int", "broadcast_arrays", "full_like",
-          "copyto_src"]
+          "copyto_src", "poly_divmod_prealigned", "truediv_prealigned", "mod_prealigned", "add_prealigned", "multiply_prealigned",
+          "greater_prealigned", "isclose_prealigned"]
 
 
 DTYPES = ["int64", "float64", "bool", "uint32", "float32"]
@@ -33,15 +34,31 @@ def gen(tier, rng):
             for _ in range(reps):
                 binary = op in BINARY
                 shape = rng.choice([(2,), (2, 2), (3,), ()])
-                inp = {"op": op,
-                       "a": rand_poly(rng, shape=shape, pool=[0, 0, 1, 2] if dt in ("bool", "uint32") else [-1, 0, 1, 2],
-                                      dtype=dt, maxterms=3),
-                       "view": rng.random() < 0.3}
+                pool = [0, 0, 1, 2] if dt in ("bool", "uint32") else [-1, 0, 1, 2]
+                if dt.startswith("float") and rng.random() < 0.5:
+                    # magnitudes that tolerance / suppression / negligibility tests treat specially
+                    pool = pool + ([1e-12, -1e-30, 1e-40, 2.0 ** -30] if dt == "float64" else [1e-12, -1e-30, 2.0 ** -30])
+                inp = {"op": op, "a": rand_poly(rng, shape=shape, pool=pool, dtype=dt, maxterms=3), "view": rng.random() < 0.3}
                 if binary:
                     r = rng.random()
                     inp["b"] = {"poly": rand_poly(rng, shape=rng.choice([shape, ()]), pool=[-1, 1, 2])} if r < 0.7 else \
                         ({"array": nested(rng, shape, [1, 2, 3]), "dtype": "int64"} if r < 0.9 else {"num": 2})
                 yield inp
+
+
+def gen_negligible(tier, rng):
+    """division whose leading quotient candidate is negligible (the code treats |ratio| < 1e-30 as zero): operands given both as
+    they come and already aligned with each other"""
+    for op in ("poly_divmod", "truediv_op", "mod_op", "poly_divmod_prealigned", "truediv_prealigned", "mod_prealigned"):
+        for _ in range(count(tier, 6, 40)):
+            shape = rng.choice([(), (2,), (2, 2)])
+            top = rng.choice([2, 3])
+            tiny = rng.choice([1e-40, -1e-35, 1e-300])
+            a = {"names": ["q0"], "exponents": [[0], [1], [top]], "dtype": "float64",
+                 "coefficients": [nested(rng, shape, [2.0, -1.0, 3.0]), nested(rng, shape, [3.0, 1.0]), nested(rng, shape, [tiny])]}
+            b = {"names": ["q0"], "exponents": [[0], [1]], "dtype": "float64",
+                 "coefficients": [nested(rng, shape, [1.0, 2.0]), nested(rng, shape, [1.0, -2.0, 4.0])]}
+            yield {"op": op, "a": a, "b": {"poly": b}, "view": False}
 
 
 def unary(op, a, numpoly):
@@ -62,7 +79,13 @@ def unary(op, a, numpoly):
         "atleast_2d": lambda: numpoly.atleast_2d(a), "diag_or_raise": lambda: numpoly.diag(a),
         "call_numeric": lambda: a(*[2] * len(a.names)), "call_bad_kw": lambda: a(nonexistent=1),
         "getitem": lambda: a[..., None],
+        "array_str_suppress": lambda: numpoly.array_str(a, precision=4, suppress_small=True),
+        "array_repr_suppress": lambda: numpoly.array_repr(a, precision=4, suppress_small=True),
+        "to_string_suppress": lambda: numpoly.array_function.array_repr.to_string(a, precision=4, suppress_small=True),
     }
+    if op in ("str_suppress", "repr_suppress"):
+        with numpy.printoptions(suppress=True, precision=4):
+            return str(a) if op == "str_suppress" else repr(a)
     if op in f:
         return f[op]()
     if op == "exponents_inplace":
@@ -93,6 +116,10 @@ def binary(op, a, b, numpoly):
     }
     if op in f:
         return f[op]()
+    if op.endswith("_prealigned"):
+        base = {"poly_divmod": numpoly.poly_divmod, "truediv": lambda x, y: x / y, "mod": lambda x, y: x % y, "add": numpoly.add,
+                "multiply": numpoly.multiply, "greater": numpoly.greater, "isclose": numpoly.isclose}[op[:-len("_prealigned")]]
+        return base(a, b)
     if op == "copyto_src":
         dst = numpoly.polynomial(a) * 0 + numpoly.polynomial(b) * 0
         return numpoly.copyto(dst, a + b * 0)
@@ -168,8 +195,14 @@ def numeric_arguments(inp):
     return None
 
 
-@check("C17", "arguments.unchanged", gen, functions=(),
-       note="bounded: 49 unary and 33 binary public operations (functions, operators, methods, properties) on polynomials, "
+def gen_all(tier, rng):
+    yield from gen(tier, rng)
+    yield from gen_negligible(tier, rng)
+
+
+@check("C17", "arguments.unchanged", gen_all, functions=(),
+       note="bounded: 54 unary and 40 binary public operations (incl. display with small-number suppression and operations on "
+            "operands that are already aligned with each other; divisions with a negligible leading coefficient) (functions, operators, methods, properties) on polynomials, "
             "views of polynomials, plain arrays; byte-level snapshot before/after on normal and exceptional exits")
 def arguments_unchanged(inp):
     import numpoly
@@ -177,6 +210,10 @@ def arguments_unchanged(inp):
     if inp["view"] and a.shape:
         a = a.T if a.ndim > 1 else a.ravel()          # numpy-level views sharing the original buffer
     b = operand(inp["b"]) if "b" in inp else None
+    if inp["op"].endswith("_prealigned"):
+        # operands that are ALREADY aligned with each other (same names, shape, exponent table): nothing needs to be copied to
+        # align them, which is when a function is tempted to work on the caller's own object
+        a, b = numpoly.align_polynomials(a, b)
     sa, sb = snapshot(a), (snapshot(b) if b is not None else None)
     exc = None
     try:
